@@ -639,7 +639,7 @@ def run_all(rep: Report, T: dict, server, stats: Counter) -> None:
                 f"edge replay left {cover.remaining()} of {len(cover.edges)} edges uncovered without "
                 f"any divergence (steps={steps})")
         rep.notes.append(f"edge replay stopped at the step budget with {cover.remaining()} edges uncovered")
-    if len(cover.gaveup) > 0.05 * len(cover.edges):
+    if len(cover.gaveup) > 0.05 * len(cover.edges) and not rep.violations:
         raise tlc.MachineryError(f"{len(cover.gaveup)} fault edges never fired")
     rep.exhaustive = cover.remaining() == 0 and not cover.gaveup and not cover.bad
 
@@ -668,7 +668,7 @@ def run_all(rep: Report, T: dict, server, stats: Counter) -> None:
     for i in range(T["hist"]):
         cfg = W.make_config(hrng, styles[i % 3], native_anim=(i % 9 == 4))
         traces.append(random_history((cfg, server, hrng), hrng, T["hist_len"]))
-    tam = tampered(all_ok_traces + traces)
+    tam = tampered(all_ok_traces)
     verdicts = validate(rep, traces + [c for c, _ in tam], "c11-hist", stats)
     tv = verdicts[len(traces):]
     verdicts = verdicts[: len(traces)]
@@ -683,22 +683,24 @@ def run_all(rep: Report, T: dict, server, stats: Counter) -> None:
     rep.extra["histories"] = dict(n=len(traces), steps=sum(len(t["events"]) for t in traces),
                                   wall_s=round(time.time() - t0, 1))
 
-    # ---- the alarm rings: corrupted histories must be rejected
-    if len(tam) < 3 and not rep.violations:
-        raise tlc.MachineryError(f"could not build the corrupted-history self-check ({len(tam)} of 3)")
+    # ---- the alarm rings: corrupted histories must be rejected; nothing vacuous
+    problems = []
+    if len(tam) < 3:
+        problems.append(f"could not build the corrupted-history self-check ({len(tam)} of 3)")
     for (c, want), v in zip(tam, tv):
         if not v["verdict"].startswith(want):
-            raise tlc.MachineryError(
-                f"corrupted history not rejected as {want}: verdict {v['verdict']!r}")
-    rep.extra["corrupted_histories_rejected"] = len(tam)
-
-    # ---- vacuity
-    if not rep.violations:
-        missing = [s for s in W.STEPS if not stats.get("faultstep:" + s)]
-        if missing:
-            raise tlc.MachineryError(f"no injected failure ever fired at step(s) {missing}")
-        for need in ("pairs", "hits_expected", "op:draw", "open:url:ok:ok", "open:url:404:URLNotFoundError",
-                     "open:url:notImage:UnidentifiedImageError", "open:url:ctorFails:ValueError",
-                     "open:pil:ok:ok"):
-            if not stats.get(need):
-                raise tlc.MachineryError(f"vacuous run: nothing counted for {need!r}")
+            problems.append(f"corrupted history not rejected as {want}: verdict {v['verdict']!r}")
+    rep.extra["corrupted_histories_rejected"] = len(tam) - sum("not rejected" in p for p in problems)
+    missing = [s for s in W.STEPS if not stats.get("faultstep:" + s)]
+    if missing:
+        problems.append(f"no injected failure ever fired at step(s) {missing}")
+    for need in ("pairs", "hits_expected", "hits_observed", "op:draw", "open:url:ok:ok",
+                 "open:url:404:URLNotFoundError", "open:url:notImage:UnidentifiedImageError",
+                 "open:url:ctorFails:ValueError", "open:pil:ok:ok"):
+        if not stats.get(need):
+            problems.append(f"vacuous run: nothing counted for {need!r}")
+    if problems:
+        if rep.violations:  # the code under test misbehaves: report that, keep the rest as notes
+            rep.notes += problems
+        else:
+            raise tlc.MachineryError("; ".join(problems))
